@@ -11,8 +11,11 @@ def c01_signed_division_negative(case, reason):
 
 def c01_sw_negative_in_64bit(case, reason):
     """F21: an operand is the signed 32-bit register view `sw` holding a negative value (spec flag
-    SwNegative) and the destination is 8 bytes wide: the register is used without sign extension"""
-    return case.get("verdict") == "wrong" and case.get("sw_negative") is True and case.get("dst_size") == 8
+    SwNegative) and the statement is computed in 64 bits (an 8-byte destination, or a hash-map variable, which is
+    assigned through an 8-byte temporary): the register is used without sign extension"""
+    # a hash-map variable of any size is assigned through an 8-byte temporary: the expression is computed in 64 bits
+    wide = case.get("dst_size") == 8 or list(case.get("dst") or [""])[0] == "hash"
+    return case.get("verdict") == "wrong" and case.get("sw_negative") is True and wide
 
 
 def c03_sw_negative_against_wide(case, reason):
